@@ -93,6 +93,20 @@ func (bs *baseServer) Construct(opt any) {
 
 	bs.opts = options.Assign(opts)
 
+	// a plain reader can be read only once: keep its content in a buffer that
+	// onOpen clones for every session (text stays text, anything else is binary)
+	if ip := bs.opts.InitialPacket(); ip != nil {
+		if _, ok := ip.(types.BufferInterface); !ok {
+			var buf types.BufferInterface
+			if _, text := ip.(*strings.Reader); text {
+				buf, _ = types.NewStringBufferReader(ip)
+			} else {
+				buf, _ = types.NewBytesBufferReader(ip)
+			}
+			bs.opts.SetInitialPacket(buf)
+		}
+	}
+
 	if opts != nil {
 		if cookie := opts.Cookie(); cookie != nil {
 			if len(cookie.Name) == 0 {
